@@ -199,6 +199,8 @@ def run(ctx):
                                                           nshards="@NSHARDS@"), 16, "GenFLex_small", timeout=3000)
     cases += runner.sharded_tlc(ctx, "GenFLex", CFG.format(profile="full", maxlines=2 if q else 3, shard="@SHARD@",
                                                            nshards="@NSHARDS@"), 16, "GenFLex_full", timeout=3000)
+    cases += runner.sharded_tlc(ctx, "GenFLex", CFG.format(profile="cont", maxlines=5 if q else 6, shard="@SHARD@",
+                                                           nshards="@NSHARDS@"), 16, "GenFLex_cont", timeout=3000)
     sim = runner.sharded_tlc(ctx, "GenFLex", CFG.format(profile="full", maxlines=12, shard=0, nshards=1), 16,
                              "GenFLex_sim", timeout=900, simulate=f"num={50 if q else 700}", depth=14, seed=ctx.seed + 2)
     seen, allc = set(), []
